@@ -353,4 +353,230 @@ def handleE2E : Handler := fun s =>
       | _ => none
     r.getD (badInput "c18e2e: cannot parse case")
 
+/-! ### names supplied through feature code (`c18fea`) -/
+
+def parseSpec (s : Sexp) : Option FeaSpec :=
+  match s with
+  | .list [p, e, l, t] => do some ⟨← p.asNat?, ← e.asNat?, ← l.asNat?, ← str? t⟩
+  | _ => none
+def parseSpecs (s : Sexp) : Option (List FeaSpec) := s.mapM? parseSpec
+
+structure StatSrc where
+  /-- `ElidedFallbackNameID n` (inl) or `ElidedFallbackName { … }` (inr) -/
+  elided : Nat ⊕ List FeaSpec
+  axes : List (String × Nat × List FeaSpec)
+  values : List (String × Rat × List FeaSpec)
+
+structure FeaSrc where
+  explicit : List (Nat × FeaSpec)
+  stat : Option StatSrc
+  ss : List (String × List FeaSpec)
+  cv : Option (String × List FeaSpec × List FeaSpec × List FeaSpec × List (List FeaSpec))
+  size : Option (List FeaSpec)
+
+def parseFea (c : Sexp) : Option FeaSrc := do
+  let s := Sexp.list (← c.field? "fea")
+  let explicit ← (← s.field1? "explicit").mapM? fun r =>
+    match r with
+    | .list [i, sp] => do some ((← i.asNat?), (← parseSpec sp))
+    | _ => none
+  let stat ← match ← s.field1? "stat" with
+    | .atom "none" => some none
+    | st => do
+      let elided ← match ← st.field1? "elided" with
+        | .list [.atom "id", n] => Sum.inl <$> n.asNat?
+        | .list [.atom "names", ns] => Sum.inr <$> parseSpecs ns
+        | _ => none
+      let axes ← (← st.field1? "axes").mapM? fun a =>
+        match a with
+        | .list [t, o, ns] => do some ((← t.asString?), (← o.asNat?), (← parseSpecs ns))
+        | _ => none
+      let values ← (← st.field1? "values").mapM? fun a =>
+        match a with
+        | .list [t, v, ns] => do some ((← t.asString?), (← v.asRat?), (← parseSpecs ns))
+        | _ => none
+      some (some { elided, axes, values })
+  let ss ← (← s.field1? "ss").mapM? fun a =>
+    match a with
+    | .list [t, ns] => do some ((← t.asString?), (← parseSpecs ns))
+    | _ => none
+  let cv ← match ← s.field1? "cv" with
+    | .atom "none" => some none
+    | .list [t, a, b, c, ps] => do some (some ((← t.asString?), (← parseSpecs a), (← parseSpecs b), (← parseSpecs c), (← ps.mapM? parseSpecs)))
+    | _ => none
+  let size ← match ← s.field1? "size" with
+    | .atom "none" => some none
+    | ns => some <$> parseSpecs ns
+  some { explicit, stat, ss, cv, size }
+
+/-- insertion sort of tagged things by tag (`BTreeMap<Tag, _>` iteration) -/
+def sortByTag {α : Type} (l : List (String × α)) : List (String × α) :=
+  l.foldr (fun p acc => (acc.takeWhile fun q => q.1 < p.1) ++ p :: (acc.dropWhile fun q => q.1 < p.1)) []
+
+/-- What each anonymous group is for. -/
+inductive Ref where
+  | elided | axis (tag : String) | value (tag : String) (v : Rat) | size | ss (tag : String)
+  | cvLabel (tag : String) | cvTip (tag : String) | cvSample (tag : String) | cvParam (tag : String) (k : Nat)
+  deriving Repr, BEq
+
+/-- the anonymous groups in fea-rs' build order (stat.rs:60-140, features.rs:246-265, 567-580) -/
+def groupsOf (f : FeaSrc) : List (Ref × List FeaSpec) :=
+  let stat : List (Ref × List FeaSpec) := match f.stat with
+    | none => []
+    | some st =>
+      (match st.elided with
+       | .inr ns => [(Ref.elided, ns)]
+       | .inl _ => []) ++
+      st.axes.flatMap fun (tag, _, ns) =>
+        (Ref.axis tag, ns) :: (st.values.filter fun v => v.1 == tag).map fun (t, v, vns) => (Ref.value t v, vns)
+  let size := match f.size with
+    | some ns => [(Ref.size, ns)]
+    | none => []
+  let ss := (sortByTag f.ss).map fun (t, ns) => (Ref.ss t, ns)
+  let cv := match f.cv with
+    | none => []
+    | some (t, a, b, c, ps) =>
+      (if a.isEmpty then [] else [(Ref.cvLabel t, a)]) ++ (if b.isEmpty then [] else [(Ref.cvTip t, b)]) ++
+      (if c.isEmpty then [] else [(Ref.cvSample t, c)]) ++ ps.zipIdx.map fun (p, k) => (Ref.cvParam t k, p)
+  stat ++ size ++ ss ++ cv
+
+def handleFea : Handler := fun s =>
+  match Fontc.E2E.parseDesign s, parseFea s with
+  | some d, some src =>
+    match s.field? "result" with
+    | some (.atom "ok" :: _) =>
+      let r : Option Verdict := do
+        let f ← Fontc.E2E.parseFont s
+        let refs := Sexp.list (← s.field? "refs")
+        let isStatic := (← s.field1? "static") == .atom "true"
+        let toS (t : String) : Str := t.toList.map Char.toNat
+        let recs : Table := f.name.map fun (i, p, e, l, v) => (⟨i, p, e, l⟩, toS v)
+        -- the font's references
+        let fStat : Option (List (String × Nat × Nat) × List (Nat × Nat × Rat × Nat) × Option Nat) := do
+          let st := Sexp.list (← refs.field? "STAT")
+          let axes ← (← st.field1? "axes").mapM? fun a =>
+            match a with
+            | .list [t, nid, o] => do some ((← t.asString?), (← nid.asNat?), (← o.asNat?))
+            | _ => none
+          let values ← (← st.field1? "values").mapM? fun a =>
+            match a with
+            | .list [fmt, ax, v, nid] => do some ((← fmt.asNat?), (← ax.asNat?), (← v.asRat?), (← nid.asNat?))
+            | _ => none
+          some (axes, values, ← parseOptNat (← st.field1? "elided"))
+        let fParams ← (← refs.field1? "featparams").mapM? fun p =>
+          match p with
+          | .list (t :: .atom kind :: ids) => do some ((← t.asString?), kind, (← ids.mapM Sexp.asNat?))
+          | _ => none
+        -- font id of each anonymous group
+        let fontId (r : Ref) : Option Nat :=
+          match r with
+          | .elided => fStat.bind (·.2.2)
+          | .axis t => fStat.bind fun st => (st.1.find? (·.1 == t)).map (·.2.1)
+          | .value t v => fStat.bind fun st =>
+              match st.1.findIdx? (·.1 == t) with
+              | some ai => (st.2.1.find? fun (_, a, fv, _) => a == ai && fv == v).map (·.2.2.2)
+              | none => none
+          | .size => (fParams.find? (·.2.1 == "size")).bind (·.2.2[0]?)
+          | .ss t => (fParams.find? fun p => p.1 == t && p.2.1 == "ss").bind (·.2.2[0]?)
+          | .cvLabel t => (fParams.find? fun p => p.1 == t && p.2.1 == "cv").bind (·.2.2[0]?)
+          | .cvTip t => (fParams.find? fun p => p.1 == t && p.2.1 == "cv").bind (·.2.2[1]?)
+          | .cvSample t => (fParams.find? fun p => p.1 == t && p.2.1 == "cv").bind (·.2.2[2]?)
+          | .cvParam t k => (fParams.find? fun p => p.1 == t && p.2.1 == "cv").bind fun p => (p.2.2[4]?).map (· + k)
+        let groups := groupsOf src
+        -- ---------------- oracle (independent of the model's id arithmetic)
+        let c : Checks := {}
+        -- exactly one record per (id, platform, encoding, language), never empty
+        let c := c.add (recs.all fun p => (recs.filter fun q => q.1 == p.1).length == 1) "duplicate-name-record"
+        let c := c.add (recs.all fun p => !p.2.isEmpty) "empty-name-record"
+        -- every anonymous group: the referenced id carries exactly the group's strings, language by language
+        let groupOk (r : Ref) (ns : List FeaSpec) : Bool :=
+          match fontId r with
+          | none => false
+          | some id =>
+            let want := ns.filter fun n => !n.str.isEmpty
+            let got := recs.filter fun p => p.1.id == id
+            256 ≤ id && got.length == want.length &&
+              (want.all fun n => got.any fun p => p.1.platform == n.platform && p.1.encoding == n.encoding && p.1.lang == n.lang && p.2 == n.str) &&
+              -- exactly one Windows-English record
+              (got.filter fun p => p.1.platform == 3 && p.1.lang == 0x409).length == 1
+        let badGroups := groups.filter fun (r, ns) => !groupOk r ns
+        let classOf (r : Ref) : String :=
+          match r with
+          | .elided | .axis _ | .value _ _ => "stat-name-missing"
+          | .size => "size-name-missing"
+          | .ss _ => "feature-name-missing"
+          | _ => "cv-name-missing"
+        let c := badGroups.foldl (fun c (r, _) => c.add false (classOf r)) c
+        -- distinct groups get distinct ids
+        let gids := groups.filterMap fun (r, _) => fontId r
+        let c := c.add (gids.eraseDups.length == gids.length) "anonymous-ids-collide"
+        -- explicit records: reserved ids stay; font-specific ids are moved by one common offset; none is lost
+        let fontSpecific := src.explicit.filter fun e => 256 ≤ e.1
+        let keep (delta : Nat) : Bool := src.explicit.all fun (id, n) =>
+          let id' := if id ≤ 255 then id else id + delta
+          recs.any fun p => p.1 == ⟨id', n.platform, n.encoding, n.lang⟩ && p.2 == n.str
+        let delta? := (List.range 64).find? keep
+        let c := c.add delta?.isSome "fea-name-id-clobbered"
+        let delta := delta?.getD 0
+        -- explicit ids do not collide with anonymous ones
+        let c := c.add (fontSpecific.all fun e => !gids.contains (e.1 + delta)) "fea-name-id-clobbered"
+        -- ElidedFallbackNameID n: the referenced record is the explicit one
+        let c := match src.stat, fStat with
+          | some st, some fs =>
+            match st.elided with
+            | .inl n =>
+              let want : List Str := (src.explicit.filter fun (e : Nat × FeaSpec) => e.1 == n && e.2.lang == 0x409).map (fun (e : Nat × FeaSpec) => e.2.str)
+              let id' := if n ≤ 255 then n else n + delta
+              let got : List Str := (recs.filter fun (p : NameKey × Str) => some p.1.id == fs.2.2 && p.1.platform == 3 && p.1.lang == 0x409).map (fun (p : NameKey × Str) => p.2)
+              -- a reserved id may name one of the compiler's own records (then `want` is empty and any non-empty record does)
+              c.add (fs.2.2 == some id' && got.length == 1 && (want.isEmpty || got == want)) "stat-elided-fallback-wrong"
+            | .inr _ => c
+          | some _, none => c.add false "stat-table-missing"
+          | none, _ => c
+        -- the compiler's own references survive the merge: fvar axis / instance names (strings from the design)
+        let varAxes := d.axes.filter fun a => a.min != a.max
+        let c := c.add ((f.fvar.zip varAxes).all fun ((_, _, _, _, nid, _), a) =>
+          256 ≤ nid && recs.any fun p => p.1.id == nid && p.1.platform == 3 && p.1.lang == 0x409 && p.2 == uiLabel (toS a.name) none) "own-axis-name-lost"
+        let c := c.add ((f.instances.zip d.instances).all fun ((sub, _, _), (_, st, _)) =>
+          recs.any fun p => p.1.id == sub && p.1.platform == 3 && p.1.lang == 0x409 && p.2 == toS st) "own-instance-name-lost"
+        let c := c.add (isStatic || f.fvar.length == varAxes.length) "fvar-shape"
+        -- ---------------- correspondence: the model's ids + one offset = the font's ids
+        let (b, ids) := feaCompile src.explicit (groups.map (·.2))
+        let own := recs.filter fun p => p.1.id < 256 + delta && !(src.explicit.any fun e => e.1 ≤ 255 && e.1 == p.1.id && e.2.lang == p.1.lang)
+        let shift := feaShift own
+        let corrIds := (groups.zip ids).all fun ((r, _), id) => fontId r == some (shift id)
+        let corrRecs := sameTable (mergeNames own (feaRecordsShifted own b)) recs
+        let corrElided := match src.stat, fStat with
+          | some st, some fs =>
+            match st.elided with
+            | .inl n => fs.2.2 == some (feaShiftElided own n)
+            | .inr _ => true
+          | _, _ => true
+        let corr := corrIds && corrRecs && corrElided
+        let oracle := c.fails.isEmpty
+        let order := ((Sexp.list ((s.field? "fea").getD [])).field1? "order").bind Sexp.asAtom? |>.getD "?"
+        let ntl := ((Sexp.list ((s.field? "fea").getD [])).field1? "nametablelast") == some (.atom "true")
+        let langs := (src.explicit.map (·.2.lang)).eraseDups.length
+        let tags := [s!"order-{order}", s!"explicit{min src.explicit.length 6}", s!"langs{langs}", s!"groups{min groups.length 12}", s!"shift{min delta 4}"] ++
+          (if isStatic then ["static"] else ["variable"]) ++ (if ntl then ["name-table-last"] else ["name-table-first"]) ++
+          (match src.stat with
+           | none => ["no-STAT"]
+           | some st => (match st.elided with
+              | .inl n => if n ≤ 255 then ["elided-reserved-id"] else ["elided-explicit-id"]
+              | .inr _ => ["elided-inline-name"]) ++ [s!"axisvalues{min st.values.length 6}"]) ++
+          (if src.ss.isEmpty then [] else [s!"ss{src.ss.length}"]) ++ (if src.cv.isSome then ["cv"] else []) ++
+          (if src.size.isSome then ["size"] else []) ++ (if d.instances.isEmpty then [] else ["instances"]) ++
+          (if src.explicit.any (fun e => e.1 == 2) then ["fea-overrides-id2"] else [])
+        let cls := if !oracle then c.fails.headD "" else if !corr then
+          (if !corrIds then "model-fea-ids" else if !corrRecs then "model-fea-merge" else "model-fea-elided") else ""
+        let detail := (if oracle then "" else s!"failed={c.fails.eraseDups} bad={badGroups.map fun (r, _) => (repr r, fontId r)}") ++
+          (if corr then "" else s!" model_ids={ids.map shift} delta={delta} own_max={maxId own}")
+        some { corr := some corr, oracle := some oracle, nontrivial := groups.length ≥ 2 && src.explicit.length ≥ 2, cls, tags, detail }
+      r.getD (badInput "c18fea: cannot parse font")
+    | some (.atom "err" :: msg) =>
+      { corr := none, oracle := some false, cls := "valid-source-rejected",
+        detail := (msg.head?.bind Sexp.asString?).getD "" }
+    | _ => badInput "c18fea: no result"
+  | _, _ => badInput "c18fea: cannot parse case"
+
 end Fontc.Driver.C18
